@@ -1,95 +1,79 @@
-(* C11: the abstract contract of bytes.Buffer (unread contents + the byte a successful read consumed last)
-   and the proof that the concrete model of tex.Buffer refines it on every history that does not issue
-   UnreadByte directly after Grow *)
+(* C11: the concrete model of tex.Buffer (TexModel.v) refines the contract (C11_Spec.v) on every history the
+   property speaks about: same results, errors and panics, same Len and Bytes after every call. *)
 From Coq Require Import ZArith List Lia Bool Arith.
 Import ListNotations.
-Require Import TexModel.
-
-Record spec := { un : list Z; lastb : option Z }.
-Definition mk (u : list Z) (l : option Z) : spec := {| un := u; lastb := l |}.
-Definition last_of (k : nat) (u : list Z) : option Z := match k with O => None | S j => nth_error u j end.
-
-Definition sstep (s : spec) (o : op) : spec * obs :=
-  match o with
-  | Write p => (mk (un s ++ p) None, tag (Z.of_nat (length p)) [])
-  | WriteByte c => (mk (un s ++ [c]) None, tag 0%Z [])
-  | Read n =>
-      if Nat.eqb (length (un s)) 0 then (mk [] None, tag (if Nat.eqb n 0 then 0%Z else 901%Z) [])
-      else let k := Nat.min n (length (un s)) in
-           (mk (skipn k (un s)) (last_of k (un s)), tag (Z.of_nat k) (firstn k (un s)))
-  | ReadByte =>
-      if Nat.eqb (length (un s)) 0 then (mk [] None, tag 901%Z [])
-      else (mk (skipn 1 (un s)) (last_of 1 (un s)), tag 0%Z (firstn 1 (un s)))
-  | Next n =>
-      if (n <? 0)%Z then (mk (un s) None, tag 900%Z [])
-      else let k := Nat.min (Z.to_nat n) (length (un s)) in
-           (mk (skipn k (un s)) (last_of k (un s)), tag 0%Z (firstn k (un s)))
-  | UnreadByte =>
-      match lastb s with
-      | None => (s, tag 902%Z [])
-      | Some c => (mk (c :: un s) None, tag 0%Z [])
-      end
-  | Truncate n =>
-      if (n =? 0)%Z then (mk [] None, tag 0%Z [])
-      else if (n <? 0)%Z || (Z.of_nat (length (un s)) <? n)%Z then (mk (un s) None, tag 900%Z [])
-      else (mk (firstn (Z.to_nat n) (un s)) None, tag 0%Z [])
-  | Reset => (mk [] None, tag 0%Z [])
-  | Grow n => if (n <? 0)%Z then (s, tag 900%Z []) else (s, tag 0%Z [])
-  end.
+Require Import ReWrite C11_Utf8 TexModel C11_Spec.
 
 (* ---- the simulation relation ---- *)
 Definition Inv (b : buf) : Prop :=
   off b <= length (bytes b) /\ length (bytes b) <= cap b /\ (isnil b = true -> bytes b = [] /\ cap b = 0).
-Definition Rl (b : buf) (s : spec) : Prop :=
-  match lastb s with
+(* the part of the storage in front of the read offset *)
+Definition consumed (b : buf) : list Z := firstn (off b) (bytes b).
+
+Definition Rk (b : buf) (s : spec) : Prop :=
+  match lastk s with
   | None => lastr b = 0%Z
-  | Some c => lastr b <> 0%Z /\ 1 <= off b /\ nth_error (bytes b) (off b - 1) = Some c
+  | Some (isr, bs) =>
+      bs <> [] /\ (exists h, consumed b = h ++ bs) /\ lastr b = (if isr : bool then zn (length bs) else (-1)%Z)
   end.
-(* g = the previous operation was Grow: then only the contents are related *)
-Definition R (g : bool) (b : buf) (s : spec) : Prop := Inv b /\ live b = un s /\ (g = false -> Rl b s).
-Definition is_grow (o : op) : bool := match o with Grow _ => true | _ => false end.
+Definition Rp (b : buf) (s : spec) : Prop :=
+  match pre s with Some l => consumed b = l | None => True end.
+(* g = the nearest preceding non-query operation was a Grow: then the last-read kind is not related *)
+Definition R (g : bool) (b : buf) (s : spec) : Prop :=
+  Inv b /\ live b = un s /\ Rp b s /\ (g = false -> Rk b s).
 
 (* ---- list facts ---- *)
-Lemma nth_error_skipn {A} (l : list A) n i : nth_error (skipn n l) i = nth_error l (n + i).
-Proof. revert l; induction n as [|n IH]; intros l; [reflexivity|]. destruct l as [|a l]; [destruct i; reflexivity|]. cbn [skipn plus nth_error]. apply IH. Qed.
-Lemma skipn_add {A} (l : list A) n k : skipn k (skipn n l) = skipn (n + k) l.
-Proof. revert l; induction n as [|n IH]; intros l; [reflexivity|]. destruct l as [|a l]; [rewrite !skipn_nil; reflexivity|]. cbn [skipn plus]. apply IH. Qed.
-Lemma skipn_cons_nth {A} (l : list A) i c : nth_error l i = Some c -> skipn i l = c :: skipn (S i) l.
-Proof. revert l; induction i as [|i IH]; intros l H; destruct l as [|a l]; try discriminate.
-  - cbn in H. injection H as ->. reflexivity.
-  - cbn [nth_error] in H. change (skipn (S i) (a :: l)) with (skipn i l). change (skipn (S (S i)) (a :: l)) with (skipn (S i) l). apply IH, H. Qed.
 Lemma skipn_app_le {A} (l r : list A) n : n <= length l -> skipn n (l ++ r) = skipn n l ++ r.
 Proof. intros H. rewrite skipn_app. replace (n - length l) with 0 by lia. reflexivity. Qed.
-Lemma skipn_none {A} (l : list A) n : length l <= n -> skipn n l = [].
-Proof. apply skipn_all2. Qed.
+Lemma firstn_app_le {A} (l r : list A) n : n <= length l -> firstn n (l ++ r) = firstn n l.
+Proof. intros H. rewrite firstn_app. replace (n - length l) with 0 by lia. cbn [firstn]. apply app_nil_r. Qed.
+Lemma firstn_app_exact {A} (l r : list A) : firstn (length l) (l ++ r) = l.
+Proof. rewrite firstn_app, Nat.sub_diag, firstn_all. cbn [firstn]. apply app_nil_r. Qed.
+Lemma skipn_app_exact {A} (l r : list A) : skipn (length l) (l ++ r) = r.
+Proof. rewrite skipn_app, Nat.sub_diag, skipn_all. reflexivity. Qed.
 Lemma live_len b : length (live b) = blen b.
 Proof. unfold live, blen. apply skipn_length. Qed.
 Lemma zeros_len n : length (zeros n) = n.
 Proof. apply repeat_length. Qed.
+Lemma consumed_live b : bytes b = consumed b ++ live b.
+Proof. unfold consumed, live. symmetry. apply firstn_skipn. Qed.
+Lemma consumed_len b : off b <= length (bytes b) -> length (consumed b) = off b.
+Proof. intros H. unfold consumed. rewrite firstn_length. lia. Qed.
+
+(* moving the read offset to a known split point of the storage *)
+Lemma split_at b x y o v : bytes b = x ++ y -> o = length x ->
+  consumed (set_off b o v) = x /\ live (set_off b o v) = y.
+Proof.
+  intros Hb ->. unfold consumed, live, set_off; cbn [bytes off]. rewrite Hb.
+  split; [apply firstn_app_exact | apply skipn_app_exact].
+Qed.
+Lemma Inv_set_off b o v : Inv b -> o <= length (bytes b) -> Inv (set_off b o v).
+Proof. intros (Ho & Hc & Hn) H. unfold Inv, set_off; cbn [bytes off cap isnil]. auto. Qed.
 
 (* ---- every grow path keeps the unread bytes ---- *)
 Definition grow_post (b b1 : buf) (m n : nat) : Prop :=
   Inv b1 /\ length (bytes b1) = m + n /\ off b1 <= m /\ skipn (off b1) (firstn m (bytes b1)) = live b
-  /\ (lastr b1 = lastr b \/ lastr b1 = 0%Z).
+  /\ (lastr b1 = lastr b \/ lastr b1 = 0%Z) /\ off b1 <= off b.
 
 Lemma reslice_post b n : Inv b -> n <= cap b - length (bytes b) ->
   grow_post b {| bytes := bytes b ++ zeros n; off := off b; lastr := lastr b; cap := cap b; isnil := isnil b |} (length (bytes b)) n.
 Proof.
   intros (Ho & Hc & Hn) Hle. unfold grow_post, Inv; cbn [bytes off lastr cap isnil].
-  rewrite app_length, zeros_len, firstn_app, Nat.sub_diag, firstn_all. cbn [firstn]. rewrite app_nil_r.
-  repeat split; try lia; auto.
-  - destruct (Hn H) as [-> E]. cbn in *. assert (n = 0) by lia. subst n. reflexivity.
-  - apply Hn, H.
+  rewrite app_length, zeros_len, firstn_app_exact.
+  split; [split; [lia|split; [lia|]]|split; [reflexivity|split; [exact Ho|split; [reflexivity|split; [left; reflexivity|lia]]]]].
+  intros H. destruct (Hn H) as [E1 E2]. rewrite E1, E2 in *. cbn in Hle. assert (n = 0) by lia. subst n. split; reflexivity.
 Qed.
 
 Lemma moved_post b n c nl : Inv b -> blen b + n <= c -> (nl = true -> blen b + n = 0 /\ c = 0) ->
   grow_post b {| bytes := live b ++ zeros n; off := 0; lastr := lastr b; cap := c; isnil := nl |} (blen b) n.
 Proof.
   intros (Ho & Hc & Hn) Hle Hnl. unfold grow_post, Inv; cbn [bytes off lastr cap isnil].
-  rewrite app_length, zeros_len, live_len, firstn_app, live_len, Nat.sub_diag. cbn [firstn skipn]. rewrite app_nil_r, <- live_len, firstn_all, live_len.
-  repeat split; try lia; auto.
-  - destruct (Hnl H) as [E _]. apply length_zero_iff_nil. rewrite app_length, zeros_len, live_len. exact E.
-  - apply Hnl, H.
+  rewrite app_length, zeros_len, live_len.
+  replace (firstn (blen b) (live b ++ zeros n)) with (live b)
+    by (rewrite <- (live_len b); symmetry; apply firstn_app_exact).
+  cbn [skipn].
+  split; [split; [lia|split; [lia|]]|split; [reflexivity|split; [lia|split; [reflexivity|split; [left; reflexivity|lia]]]]].
+  intros H. destruct (Hnl H) as [E Ec]. split; [|exact Ec]. apply length_zero_iff_nil. rewrite app_length, zeros_len, live_len. exact E.
 Qed.
 
 Lemma grow_spec b n b1 m : Inv b -> grow b n = (b1, m) -> grow_post b b1 m n.
@@ -98,34 +82,36 @@ Proof.
   set (b' := if Nat.eqb (blen b) 0 && negb (Nat.eqb (off b) 0) then reset b else b).
   assert (HI' : Inv b').
   { subst b'. destruct (Nat.eqb (blen b) 0 && negb (Nat.eqb (off b) 0)); [|exact HI].
-    destruct HI as (Ho & Hc & Hn). unfold Inv, reset; cbn [bytes off cap isnil length]. repeat split; try lia.
-    apply Hn, H. }
-  assert (Hlive : live b' = live b /\ blen b' = blen b /\ (lastr b' = lastr b \/ lastr b' = 0%Z)).
+    destruct HI as (Ho & Hc & Hn). unfold Inv, reset; cbn [bytes off cap isnil length]. split; [lia|split; [lia|]].
+    intros H. split; [reflexivity|apply Hn, H]. }
+  assert (Hlive : live b' = live b /\ blen b' = blen b /\ (lastr b' = lastr b \/ lastr b' = 0%Z) /\ off b' <= off b).
   { subst b'. destruct (Nat.eqb (blen b) 0 && negb (Nat.eqb (off b) 0)) eqn:E; [|auto].
     apply andb_prop in E. destruct E as [E _]. apply Nat.eqb_eq in E.
-    unfold reset, live, blen in *; cbn [bytes off lastr length skipn]. split; [|split; [lia|auto]].
-    symmetry. apply skipn_none. destruct HI as (Ho & _). lia. }
-  destruct Hlive as (Hl & Hb & Hr).
-  assert (Hcap : cap b' = cap b /\ isnil b' = isnil b).
-  { subst b'. destruct (Nat.eqb (blen b) 0 && negb (Nat.eqb (off b) 0)); auto. }
+    unfold reset, live, blen in *; cbn [bytes off lastr length skipn]. split; [|split; [lia|split; [auto|lia]]].
+    symmetry. apply skipn_all2. destruct HI as (Ho & _). lia. }
+  destruct Hlive as (Hl & Hb & Hr & Hoff).
   clearbody b'.
   assert (T : forall x k, grow_post b' x k n -> grow_post b x k n).
-  { intros x k (A & B & C & D & E). unfold grow_post. rewrite <- Hl. split; [exact A|split; [exact B|split; [exact C|split; [exact D|]]]]. destruct E as [E|E]; [destruct Hr as [F|F]; [left|right]; congruence | right; exact E]. }
+  { intros x k (A & B & C & D & E & F). unfold grow_post. rewrite <- Hl.
+    split; [exact A|split; [exact B|split; [exact C|split; [exact D|split; [|lia]]]]].
+    destruct E as [E|E]; [destruct Hr as [G|G]; [left|right]; congruence | right; exact E]. }
   destruct (Nat.leb n (cap b' - length (bytes b'))) eqn:E1.
   { intros H; inversion H; subst. apply T, reslice_post; [exact HI'|]. apply Nat.leb_le, E1. }
   apply Nat.leb_gt in E1.
-  destruct (isnil b' && Nat.leb n 64) eqn:E2.
+  destruct (isnil b' && Nat.leb n small_buffer_size) eqn:E2.
   { intros H; inversion H; subst. apply T. apply andb_prop in E2. destruct E2 as [E2 E3]. apply Nat.leb_le in E3.
     destruct HI' as (Ho & Hc & Hn). destruct (Hn E2) as [Hb0 Hc0].
     unfold grow_post, Inv; cbn [bytes off lastr cap isnil firstn skipn]. rewrite zeros_len.
-    unfold live. rewrite Hb0. rewrite skipn_nil. repeat split; try lia; try discriminate; auto. }
+    unfold live. rewrite Hb0. rewrite skipn_nil.
+    split; [split; [lia|split; [exact E3|discriminate]]|split; [reflexivity|split; [lia|split; [reflexivity|split; [left; reflexivity|lia]]]]]. }
   rewrite <- Hb.
   destruct (Nat.leb n (cap b' / 2 - blen b')) eqn:E3.
   { intros H; inversion H; subst. apply T. apply moved_post; [exact HI'| |].
     - apply Nat.leb_le in E3. destruct HI' as (Ho & Hc & Hn). unfold blen in *.
       assert (cap b' / 2 * 2 <= cap b') by (rewrite Nat.mul_comm; apply Nat.mul_div_le; lia). lia.
-    - intros Hn'. rewrite Hn' in E2. cbn in E2. apply Nat.leb_gt in E2.
-      destruct HI' as (Ho & Hc & Hn). destruct (Hn Hn') as [Hb0 Hc0]. rewrite Hc0 in E3. apply Nat.leb_le in E3. cbn in E3. lia. }
+    - intros Hn'. rewrite Hn' in E2. cbn [andb] in E2. apply Nat.leb_gt in E2.
+      destruct HI' as (Ho & Hc & Hn). destruct (Hn Hn') as [Hb0 Hc0]. rewrite Hc0 in E3. apply Nat.leb_le in E3. cbn in E3.
+      unfold small_buffer_size in E2. lia. }
   intros H; inversion H; subst. apply T. apply moved_post; [exact HI'| |discriminate].
   destruct HI' as (Ho & Hc & Hn). unfold blen. lia.
 Qed.
@@ -136,165 +122,3 @@ Proof.
   - intros H; inversion H; subst. apply reslice_post; [exact HI|]. apply Nat.leb_le, E.
   - apply grow_spec, HI.
 Qed.
-
-(* ---- consequences used by the step lemma ---- *)
-Lemma Inv_set_last b v : Inv (set_last b v) <-> Inv b.
-Proof. reflexivity. Qed.
-
-Lemma write_sim b s p b1 m : Inv b -> live b = un s -> lastr b = 0%Z -> grow_for_write b (length p) = (b1, m) ->
-  R false (write_at b1 m p) (mk (un s ++ p) None).
-Proof.
-  intros HI Hl Hr Hg. destruct (grow_for_write_spec _ _ _ _ HI Hg) as ((Ho & Hc & Hn) & Hlen & Hom & Hk & Hlr).
-  assert (Hfl : length (firstn m (bytes b1)) = m) by (rewrite firstn_length; lia).
-  unfold R, Inv, Rl, write_at, live; cbn [bytes off lastr cap isnil un lastb mk].
-  rewrite app_length, Hfl. split; [split; [lia|split; [lia|]]|split].
-  - intros Hnil. destruct (Hn Hnil) as [E1 E2]. rewrite E1 in *. cbn in Hlen. assert (length p = 0) by lia.
-    rewrite firstn_nil. destruct p; [auto|discriminate].
-  - rewrite skipn_app_le by lia. rewrite Hk, Hl. reflexivity.
-  - intros _. destruct Hlr as [E|E]; congruence.
-Qed.
-
-Lemma consume_sim b s k v : Inv b -> live b = un s -> k <= blen b -> v <> 0%Z -> 1 <= k ->
-  R false (set_off b (off b + k) v) (mk (skipn k (un s)) (last_of k (un s))).
-Proof.
-  intros (Ho & Hc & Hn) Hl Hk Hv Hk1. unfold R, Inv, Rl, set_off, live, blen in *; cbn [bytes off lastr cap isnil un lastb mk].
-  split; [split; [lia|split; [lia|exact Hn]]|split].
-  - rewrite <- Hl, skipn_add. reflexivity.
-  - intros _. destruct k as [|j]; [lia|]. cbn [last_of]. rewrite <- Hl, nth_error_skipn.
-    destruct (nth_error (bytes b) (off b + j)) as [c|] eqn:E.
-    + split; [exact Hv|split; [lia|]]. rewrite <- E. f_equal. lia.
-    + apply nth_error_None in E. lia.
-Qed.
-
-Lemma consume0_sim b s : Inv b -> live b = un s ->
-  R false (set_off b (off b + 0) 0%Z) (mk (skipn 0 (un s)) (last_of 0 (un s))).
-Proof.
-  intros HI Hl. unfold R, Rl, set_off, live in *; cbn [bytes off lastr cap isnil un lastb mk last_of skipn].
-  rewrite Nat.add_0_r. split; [exact HI|split; [exact Hl|reflexivity]].
-Qed.
-
-Lemma reset_sim b : Inv b -> R false (reset b) (mk [] None).
-Proof.
-  intros (Ho & Hc & Hn). unfold R, Inv, Rl, reset, live; cbn [bytes off lastr cap isnil un lastb mk length skipn].
-  split; [split; [lia|split; [lia|]]|split; reflexivity].
-  intros H. split; [reflexivity|apply Hn, H].
-Qed.
-
-Lemma weaken g b s : R false b s -> R g b s.
-Proof. intros (A & B & C). split; [exact A|split; [exact B|intros _; apply C; reflexivity]]. Qed.
-
-(* ---- one step ---- *)
-Lemma step_sim g b s o : R g b s -> (g = true -> o <> UnreadByte) ->
-  fst (snd (step b o), snd (sstep s o)) = snd (snd (step b o), snd (sstep s o)) /\
-  R (is_grow o) (fst (step b o)) (fst (sstep s o)).
-Proof.
-  intros (HI & Hl & HR) Hex.
-  assert (Hlen : length (un s) = blen b) by (rewrite <- Hl; apply live_len).
-  destruct o as [p|c|n| |n| |n| |n]; cbn [step sstep is_grow fst snd].
-  - (* Write *)
-    destruct (grow_for_write (set_last b 0%Z) (length p)) as [b1 m] eqn:Eg. cbn [fst snd]. split; [reflexivity|].
-    apply (write_sim (set_last b 0%Z) s p b1 m); [exact HI | exact Hl | reflexivity | exact Eg].
-  - (* WriteByte *)
-    destruct (grow_for_write (set_last b 0%Z) 1) as [b1 m] eqn:Eg. cbn [fst snd]. split; [reflexivity|].
-    apply (write_sim (set_last b 0%Z) s [c] b1 m); [exact HI | exact Hl | reflexivity | exact Eg].
-  - (* Read *)
-    change (blen (set_last b 0%Z)) with (blen b). rewrite Hlen.
-    destruct (Nat.eqb (blen b) 0) eqn:E; cbn [fst snd].
-    + split; [reflexivity|]. apply reset_sim, HI.
-    + apply Nat.eqb_neq in E. change (off (set_last b 0%Z)) with (off b). change (live (set_last b 0%Z)) with (live b).
-      rewrite Hl. split; [reflexivity|].
-      destruct (Nat.eqb (Nat.min n (blen b)) 0) eqn:E0.
-      * apply Nat.eqb_eq in E0. rewrite E0. apply (consume0_sim (set_last b 0%Z) s); auto.
-      * apply Nat.eqb_neq in E0. apply (consume_sim (set_last b 0%Z) s); auto; try lia. change (blen (set_last b 0%Z)) with (blen b). lia.
-  - (* ReadByte *)
-    rewrite Hlen. destruct (Nat.eqb (blen b) 0) eqn:E; cbn [fst snd].
-    + split; [reflexivity|]. apply reset_sim, HI.
-    + apply Nat.eqb_neq in E. rewrite Hl. split; [reflexivity|].
-      replace (S (off b)) with (off b + 1) by lia. apply consume_sim; auto; try lia.
-  - (* Next *)
-    destruct (n <? 0)%Z; cbn [fst snd].
-    + split; [reflexivity|]. split; [exact HI|split; [exact Hl|intros _; reflexivity]].
-    + rewrite Hlen, Hl. split; [reflexivity|].
-      destruct (Nat.eqb (Nat.min (Z.to_nat n) (blen b)) 0) eqn:E0.
-      * apply Nat.eqb_eq in E0. rewrite E0. apply consume0_sim; auto.
-      * apply Nat.eqb_neq in E0. apply consume_sim; auto; try lia.
-  - (* UnreadByte *)
-    destruct g; [exfalso; apply (Hex eq_refl); reflexivity|]. specialize (HR eq_refl). unfold Rl in HR.
-    destruct (lastb s) as [c|] eqn:El.
-    + destruct HR as (Hv & Ho1 & Hn). apply Z.eqb_neq in Hv. rewrite Hv. cbn [fst snd]. split; [reflexivity|].
-      destruct (Nat.eqb (off b) 0) eqn:E0; [apply Nat.eqb_eq in E0; lia|].
-      destruct HI as (Ho & Hc & Hnil). unfold R, Inv, Rl, set_off, live in *; cbn [bytes off lastr cap isnil un lastb mk].
-      split; [split; [lia|split; [lia|exact Hnil]]|split; [|intros _; reflexivity]].
-      rewrite (skipn_cons_nth _ _ _ Hn). replace (S (off b - 1)) with (off b) by lia. rewrite Hl. reflexivity.
-    + rewrite HR. cbn [Z.eqb fst snd]. split; [reflexivity|]. split; [exact HI|split; [exact Hl|intros _; unfold Rl; rewrite El; exact HR]].
-  - (* Truncate *)
-    destruct (n =? 0)%Z eqn:E0; cbn [fst snd].
-    + split; [reflexivity|]. apply reset_sim, HI.
-    + rewrite Hlen. destruct ((n <? 0)%Z || (Z.of_nat (blen b) <? n)%Z) eqn:E1; cbn [fst snd].
-      * split; [reflexivity|]. split; [exact HI|split; [exact Hl|intros _; reflexivity]].
-      * split; [reflexivity|]. apply orb_false_elim in E1. destruct E1 as [E1 E2]. apply Z.ltb_ge in E1. apply Z.ltb_ge in E2.
-        destruct HI as (Ho & Hc & Hnil). unfold R, Inv, Rl, live, blen in *; cbn [bytes off lastr cap isnil un lastb mk].
-        rewrite firstn_length. split; [split; [lia|split; [lia|]]|split; [|intros _; reflexivity]].
-        -- intros H. destruct (Hnil H) as [E ?]. rewrite E, firstn_nil. auto.
-        -- rewrite <- Hl. symmetry. apply firstn_skipn_comm.
-  - (* Reset *)
-    split; [reflexivity|]. apply reset_sim, HI.
-  - (* Grow *)
-    destruct (n <? 0)%Z; cbn [fst snd].
-    + split; [reflexivity|]. split; [exact HI|split; [exact Hl|discriminate]].
-    + destruct (grow b (Z.to_nat n)) as [b1 m] eqn:Eg. cbn [fst snd]. split; [reflexivity|].
-      destruct (grow_spec _ _ _ _ HI Eg) as ((Ho & Hc & Hnil) & Hlen1 & Hom & Hk & _).
-      unfold R, Inv, live; cbn [bytes off lastr cap isnil]. rewrite firstn_length.
-      split; [split; [lia|split; [lia|]]|split; [|discriminate]].
-      * intros H. destruct (Hnil H) as [E ?]. rewrite E, firstn_nil. auto.
-      * rewrite Hk. exact Hl.
-Qed.
-
-(* ---- whole histories: what a caller sees at every step is (result, Len, Bytes) ---- *)
-Definition view := (obs * (nat * list Z))%type.
-Fixpoint run (b : buf) (l : list op) : list view :=
-  match l with [] => [] | o :: r => let '(b', ob) := step b o in (ob, (blen b', live b')) :: run b' r end.
-Fixpoint srun (s : spec) (l : list op) : list view :=
-  match l with [] => [] | o :: r => let '(s', ob) := sstep s o in (ob, (length (un s'), un s')) :: srun s' r end.
-(* no UnreadByte directly after Grow (g = the previous operation was Grow) *)
-Fixpoint ok_seq (g : bool) (l : list op) : bool :=
-  match l with
-  | [] => true
-  | o :: r => negb (g && match o with UnreadByte => true | _ => false end) && ok_seq (is_grow o) r
-  end.
-
-Theorem tex_refines_spec_bytes l : forall g b s, R g b s -> ok_seq g l = true -> run b l = srun s l.
-Proof.
-  induction l as [|o r IH]; intros g b s HR Hok; [reflexivity|].
-  cbn [ok_seq] in Hok. apply andb_prop in Hok. destruct Hok as [H1 H2].
-  assert (Hex : g = true -> o <> UnreadByte).
-  { intros -> ->. discriminate. }
-  destruct (step_sim g b s o HR Hex) as [Ho HR']. cbn [fst snd] in Ho.
-  cbn [run srun]. destruct (step b o) as [b' ob]. destruct (sstep s o) as [s' os]. cbn [fst snd] in *.
-  destruct HR' as (HI' & Hl' & HR'').
-  assert (Hlen : length (un s') = blen b') by (rewrite <- Hl'; apply live_len).
-  rewrite Ho, Hlen, Hl'. f_equal. apply (IH (is_grow o)); [split; [exact HI'|split; [exact Hl'|exact HR'']] | exact H2].
-Qed.
-
-(* the three constructors start related to the empty / given contents *)
-Lemma zero_related : R false zero_buf (mk [] None).
-Proof. unfold R, Inv, Rl, zero_buf, live; cbn. split; [split; [lia|split; [lia|auto]]|split; reflexivity]. Qed.
-Lemma new_related data nl : (nl = true -> data = []) -> R false (new_buf data nl) (mk data None).
-Proof. intros H. unfold R, Inv, Rl, new_buf, live; cbn [bytes off lastr cap isnil un lastb mk skipn].
-  split; [split; [lia|split; [lia|]]|split; reflexivity].
-  intros E. rewrite (H E). split; reflexivity. Qed.
-
-Corollary tex_is_bytes_buffer_zero l : ok_seq false l = true -> run zero_buf l = srun (mk [] None) l.
-Proof. apply tex_refines_spec_bytes, zero_related. Qed.
-
-(* non-vacuity: a history that crosses reset-if-empty, small allocation, reslice, slide and reallocation *)
-Example paths : let l := [Write (repeat 7%Z 40); Read 30; Write (repeat 8%Z 20); Grow 10; ReadByte; UnreadByte; Write (repeat 9%Z 100); Read 200; Grow 1; WriteByte 1%Z; ReadByte; UnreadByte]
-  in ok_seq false l = true /\ run zero_buf l = srun (mk [] None) l.
-Proof. vm_compute. split; reflexivity. Qed.
-
-(* the excluded case is genuinely different in the concrete model: after a Grow that moved the data the byte is not restored *)
-Example unread_after_grow_differs :
-  let l := [Write (repeat 7%Z 60); Read 50; Grow 20; UnreadByte] in run zero_buf l <> srun (mk [] None) l.
-Proof. vm_compute. discriminate. Qed.
-
-Print Assumptions tex_refines_spec_bytes.
